@@ -493,6 +493,9 @@ type authKeyT struct{}
 var authKey = authKeyT{}
 
 func (x *Exec) validate(ctx context.Context, database, username, password string) (context.Context, bool, error) {
+	if x.Sched != nil {
+		x.Sched.Gate(ctx, "validate.enter") // (a schedule may hold a login inside its validator call)
+	}
 	x.retainMap(wire.ClientParameters(ctx))
 	x.retainStr(database)
 	x.retainStr(username)
